@@ -88,6 +88,48 @@ def probes(prog):
     return "".join(out)
 
 
+# user types named like the carrier types of dart:ffi / JNA, used in the same positions as the like-named primitive:
+# helper classes that the backends derive from type names (Dart `_Result<Ok><Err>`, Kotlin `Option<T>` / `Result<T,E>` mirrors)
+# must stay distinct
+NATIVE_NAMES = [("Size", "usize"), ("Bool", "bool"), ("Double", "f64"), ("Float", "f32"), ("Int32", "i32"), ("Uint8", "u8"), ("Int64", "i64"),
+                ("Uint16", "u16"), ("Int", "i32"), ("Long", "i64"), ("Byte", "i8"), ("Short", "i16"), ("IntPtr", "isize"), ("Void", "u8")]
+
+
+def native_named_types(prog, rng, sup):
+    hosts = [t for t in prog.types() if t.kind == "opaque" and not t.lifetimes]
+    if not hosts:
+        return
+    host = hosts[0]
+    mod = [m for m in prog.modules if host in m.items][0]
+    taken = {t.name for t in prog.types()}
+    for name, prim in rng.sample(NATIVE_NAMES, 2):
+        if name in taken:
+            continue
+        if rng.random() < 0.6:
+            t = spec.Struct(name, [("w", ("prim", rng.choice(["u64", "f64", "i32"]))), ("h", ("prim", rng.choice(["u64", "u8", "f32"]))), ("d", ("prim", "u16"))])
+        else:
+            t = spec.Enum(name, [("Va", None), ("Vb", None), ("Vc", 7)])
+        mod.items.append(t)
+        kind = t.kind
+        k = len(host.methods)
+        arms = [(("prim", prim), (kind, name))]
+        for a, bty in arms:
+            for j, inner in enumerate((a, bty)):
+                m1 = spec.Method("vfn%d_%d_r" % (k, j), ("ref", None), [], ("result", inner, ("unit",), "std"))
+                m1.owner = host
+                host.methods.append(m1)
+                if sup["option"]:
+                    m2 = spec.Method("vfn%d_%d_o" % (k, j), ("ref", None), [], ("opt", inner, "std"))
+                    m2.owner = host
+                    host.methods.append(m2)
+                m3 = spec.Method("vfn%d_%d_e" % (k, j), ("ref", None), [], ("result", ("prim", "u8"), inner, "std"))
+                m3.owner = host
+                if inner[0] != "prim":           # primitive error types are a separate known finding for some backends
+                    host.methods.append(m3)
+    tooltier.friendly_attrs(prog)
+    emit_rust.assign_abi_names(prog)
+
+
 def main(tier, seed):
     chk = Check("C07", tier, seed, "translation_validation")
     thorough = tier == "thorough"
@@ -100,6 +142,8 @@ def main(tier, seed):
     def one(job):
         i, b = job
         prog = tooltier.backend_program(b, seed, i, avoid_known=True, size=("large" if i % 4 == 0 else "small"), salt="c07")
+        if i % 3 == 2:
+            native_named_types(prog, random.Random("c07n/%s/%s/%s" % (seed, i, b)), tooltier.profiles.support(b))
         d = toolrun.fresh_dir(toolrun.workdir("c07", "p%d_%s" % (i, b)))
         res = dict(job=job, viol=[], inconc=None, nf=0, ns=0, probes=0, sigs=[])
         # --- the reference must be what rustc compiled: ascription probes in a second copy of the crate
